@@ -38,8 +38,10 @@ class RefSeg(object):
             els.pop()
         return els
 
-    def format(self, seg_term, ele_term, subele_term):
+    def format(self, seg_term, ele_term, subele_term, idonly_sep=False):
         els = self.trimmed()
+        if not els and not idonly_sep:
+            return self.id + seg_term          # nothing but the identifier: there is no separator to write
         return self.id + ele_term + ele_term.join(subele_term.join(c) for c in els) + seg_term
 
     def get(self, ele, comp=None):
@@ -67,8 +69,8 @@ class Tokens(object):
     def delims(self):
         return (self.seg_term, self.ele_term, self.subele_term, self.repetition)
 
-    def normal_text(self, eol=''):
-        return ''.join(s.format(self.seg_term, self.ele_term, self.subele_term) + eol for s in self.segs)
+    def normal_text(self, eol='', idonly_sep=False):
+        return ''.join(s.format(self.seg_term, self.ele_term, self.subele_term, idonly_sep) + eol for s in self.segs)
 
 
 def header(text):
